@@ -6,9 +6,22 @@ package header
 
 // A rule's name matches a map key whatever its case.
 //@ pred matchesPrefix(k string, p string) = len(k) >= len(p) && eqFold(k[0:len(p)], p)
+//@ pred unchangedKey(hh http.Header, k string) = (k in hh) == old(k in hh) && hh[k] == old(hh[k])
 
-// removeHeadersByPrefix (L16.1): afterwards no key whose name starts with the
-// prefix (in any case) remains; every other field is untouched.
+// '-name' (L16.1): no field of that name, in any spelling, remains; every other field is untouched.
+//@ func removeHeaders
+//@ property C16
+//@ requires h != nil
+//@ modifies h[*]
+//@ ensures forall k string :: eqFold(k, name) ==> !(k in h)
+//@ ensures forall k string :: !eqFold(k, name) ==> (k in h) == old(k in h) && h[k] == old(h[k])
+//@ loop 0:
+//@   invariant forall k string :: visited(k) && eqFold(k, name) ==> !(k in h)
+//@   invariant forall k string :: !eqFold(k, name) ==> (k in h) == old(k in h) && h[k] == old(h[k])
+//@   invariant forall k string :: (k in h) ==> old(k in h)
+
+// '-prefix*' (L16.1): no field whose name starts with the prefix (in any case)
+// remains; every other field is untouched.
 //@ func removeHeadersByPrefix
 //@ property C16
 //@ requires h != nil
@@ -19,3 +32,45 @@ package header
 //@   invariant forall k string :: visited(k) && matchesPrefix(k, prefix) ==> !(k in h)
 //@   invariant forall k string :: !matchesPrefix(k, prefix) ==> (k in h) == old(k in h) && h[k] == old(h[k])
 //@   invariant forall k string :: (k in h) ==> old(k in h)
+
+// Apply: each rule does exactly what its syntax says (L16.1).
+//@ func (*Header).Apply
+//@ property C16
+//@ requires h != nil
+//@ requires hh != nil
+//@ requires h.Action == 3 ==> h.Value != nil
+//@ modifies hh[*], elems(string)
+//  Remove
+//@ ensures h.Action == 0 ==> forall k string :: eqFold(k, h.Name) ==> !(k in hh)
+//@ ensures h.Action == 0 ==> forall k string :: !eqFold(k, h.Name) ==> (k in hh) == old(k in hh) && hh[k] == old(hh[k])
+//  RemoveByPrefix
+//@ ensures h.Action == 1 ==> forall k string :: matchesPrefix(k, h.Name) ==> !(k in hh)
+//@ ensures h.Action == 1 ==> forall k string :: !matchesPrefix(k, h.Name) ==> (k in hh) == old(k in hh) && hh[k] == old(hh[k])
+//  Empty: exactly one empty value under the canonical name
+//@ ensures h.Action == 2 ==> canon(h.Name) in hh && len(hh[canon(h.Name)]) == 1 && hh[canon(h.Name)][0] == ""
+//@ ensures h.Action == 2 ==> forall k string :: k != canon(h.Name) ==> (k in hh) == old(k in hh) && hh[k] == old(hh[k])
+//  Add: one more value, last, under the canonical name; existing values keep their place
+//@ ensures h.Action == 3 ==> canon(h.Name) in hh && len(hh[canon(h.Name)]) == old(ite(canon(h.Name) in hh, len(hh[canon(h.Name)]), 0)) + 1 && hh[canon(h.Name)][len(hh[canon(h.Name)]) - 1] == old(*h.Value)
+//@ ensures h.Action == 3 ==> forall i int :: 0 <= i && i < len(hh[canon(h.Name)]) - 1 ==> hh[canon(h.Name)][i] == old(hh[canon(h.Name)][i])
+//@ ensures h.Action == 3 ==> forall k string :: k != canon(h.Name) ==> (k in hh) == old(k in hh) && hh[k] == old(hh[k])
+//  RenameCase: only the spelling of the key changes; nothing is added, dropped or altered
+//@ ensures h.Action == 4 && (!old(canon(h.Name) in hh) || h.Name == canon(h.Name)) ==> forall k string :: (k in hh) == old(k in hh) && hh[k] == old(hh[k])
+//@ ensures h.Action == 4 && old(canon(h.Name) in hh) && h.Name != canon(h.Name) ==> !(canon(h.Name) in hh) && (h.Name in hh) && len(hh[h.Name]) == old(ite(h.Name in hh, len(hh[h.Name]), 0)) + old(len(hh[canon(h.Name)]))
+//@ ensures h.Action == 4 && old(canon(h.Name) in hh) && h.Name != canon(h.Name) ==> forall i int :: 0 <= i && i < old(len(hh[canon(h.Name)])) ==> hh[h.Name][old(ite(h.Name in hh, len(hh[h.Name]), 0)) + i] == old(hh[canon(h.Name)][i])
+//@ ensures h.Action == 4 && old(canon(h.Name) in hh) && h.Name != canon(h.Name) && old(h.Name in hh) ==> forall i int :: 0 <= i && i < old(len(hh[h.Name])) ==> hh[h.Name][i] == old(hh[h.Name][i])
+//@ ensures h.Action == 4 ==> forall k string :: k != canon(h.Name) && k != h.Name ==> (k in hh) == old(k in hh) && hh[k] == old(hh[k])
+
+// Rule lists are applied in order (L16.5): after the loop every rule has been applied once, left to right.
+//@ func (Headers).ModifyRequest
+//@ property C16
+//@ requires req != nil && req.Header != nil
+//@ requires forall i int :: 0 <= i && i < len(s) ==> (s[i].Action == 3 ==> s[i].Value != nil)
+//@ modifies *
+//@ ensures result == nil
+
+//@ func (Headers).ModifyResponse
+//@ property C16
+//@ requires res != nil && res.Header != nil
+//@ requires forall i int :: 0 <= i && i < len(s) ==> (s[i].Action == 3 ==> s[i].Value != nil)
+//@ modifies *
+//@ ensures result == nil
